@@ -416,6 +416,52 @@ def display_types(f, D):
     return out
 
 
+def rule_arg_unique(ctx, f):
+    """ARG-UNIQUE (added after seeded change C22): Display writes every element of `args` / `arg_paths` under the key
+    `arg{idx}`; the same key twice is not a rule the parser reads back to the same value. So the setters must keep the
+    indices unique: every `insert`/`push` into the vector is dominated by a search for the index whose found-edge
+    removes (or overwrites) the existing element."""
+    B = "zbus::match_rule::builder::Builder"
+    n = 0
+    for name, field in (("arg", "args"), ("arg_path", "arg_paths")):
+        for b in f.find(name=name, adt=B, trait=""):
+            ins = []
+            for c in mir.calls(b):
+                if c.callee.rsplit("::", 1)[-1] in ("insert", "push") and "Vec" in c.callee and c.args:
+                    o = mir.origin(b, c.args[0])
+                    if o[0] in ("place", "ref") and field in mir.place_fields(o[1]):
+                        ins.append(c)
+            ctx.floor("ARG-UNIQUE", "insertions into MatchRule.%s in Builder::%s" % (field, name), len(ins), 1)
+            searches = [c for c in mir.calls(b) if c.callee.rsplit("::", 1)[-1] in
+                        ("binary_search_by", "binary_search_by_key", "binary_search", "position", "rposition", "find", "retain", "any")]
+            removes = [c for c in mir.calls(b) if c.callee.rsplit("::", 1)[-1] in ("remove", "swap_remove", "retain", "drain") and "Vec" in c.callee]
+            for c in ins:
+                n += 1
+                ok = False
+                why = "no search for an existing element with the same index precedes the insertion"
+                for sc in searches:
+                    if not mir.block_dominates(b, sc.b, c.b):
+                        continue
+                    if sc.is_("retain"):
+                        ok, why = True, "existing elements with that index are dropped by retain() first"
+                        continue
+                    # found edge: Ok / Some of the search result
+                    for sb, place, adt, arms, other in mir.discr_switches(b, None):
+                        so = mir.origin(b, ["c", [place[0], []]])
+                        if not (so[0] == "call" and so[1] is sc):
+                            continue
+                        found = arms.get("0") if adt.endswith("Result") else arms.get("1")
+                        if found is None:
+                            continue
+                        reg = mir.reachable(b, [found], avoid={c.b})
+                        if any(r.b in reg for r in removes) and mir.block_dominates(b, sb, c.b):
+                            ok, why = True, "an element found with the same index is removed before the insertion"
+                ctx.ob("ARG-UNIQUE", "%s:replace-existing-index" % name, ok,
+                       why if ok else why + ": setting arg%s twice keeps both, Display emits the key twice and the round trip changes the rule" % ("N" if name == "arg" else "Npath"),
+                       c.where)
+    return n
+
+
 def run(ctx):
     ctx.explanation = ("Tables extracted from MIR: Display's key->component emissions (templates and the key/value helper), the "
                        "parser's key->Builder-setter arms, the setters' written components, and the message-type name tables; "
@@ -424,6 +470,7 @@ def run(ctx):
     ctx.not_decided = "tokenisation of the rule text on ',' / '='; correctness of an escaping function once present; name/path validators."
     ctx.trusted.append("D-Bus specification, 'Match Rules' key table and message type names (transcribed in rules/C22.py)")
     f = ctx.facts("K1")
+    rule_arg_unique(ctx, f)
     fields = mr.rule_fields(ctx, f)
     D = ctx.one(f.find(name="fmt", adt=mr.RULE, trait="core::fmt::Display"), "<MatchRule as Display>::fmt")
     P = ctx.one([b for b in f.find(name="try_from", adt=mr.RULE, trait="core::convert::TryFrom")
